@@ -109,9 +109,9 @@ func floors(tier string) map[string]int64 {
 		"search_notfound":            30000,
 		"search_on_crash_images":     27000,
 		"search_on_corrupted_files":  9000,
-		"cuts_inside_marker_record":  2500,
-		"cuts_right_before_marker":   60,
-		"cuts_right_after_marker":    60,
+		"cuts_inside_marker_record":  1300,
+		"cuts_right_before_marker":   90,
+		"cuts_right_after_marker":    90,
 		"restart_variants":           160,
 	}
 	if tier == "thorough" {
